@@ -5,3 +5,7 @@ open Dashu.Props.C18Link
 #print axioms simplest_from_float_special
 #print axioms simplest_from_f32_exact
 #print axioms simplest_from_f64_exact
+#print axioms ulpExp_is_binade_minus_precision
+#print axioms rounds_to_is_spec_round
+#print axioms simplest_from_fbig_spec_round
+#print axioms cmpQ_is_regenerated_repr_cmp
